@@ -149,8 +149,10 @@ PROPS = {
     },
     "C14": {
         "level": "proof",
-        "units": ["ps", "sproof", "cproof", "za_customer", "za_states", "za_nonce_revlock", "lemmas_ps"],
+        "units": ["ps", "sproof", "cproof", "za_customer", "za_states", "za_nonce_revlock", "lemmas_ps", "za_proofs_new", "za_pay_new"],
+        "kani": ["commit_open_slots_fresh_n1", "commit_open_slots_fresh_n2", "commit_open_slots_fresh_n3"],
         "assumptions": [
+            "DECIDED: structural freshness only - in EstablishProof::new / PayProof::new every published commitment scalar and the commitment scalar behind every hidden response (nonce, revocation locks, channel id) are pairwise different draws of the call (positions in the RNG draw log); this rests on the clause 'open slots are fresh draws' of CommitmentProofBuilder::generate_proof_commitments, whose scalar-selection statement is contract-only in Verus (bounded Kani stand-in)",
             "DECIDED: structural freshness only - every signature shown is randomize_r(blind_bf(sigma)) with r appended to the RNG draw log in the same call; closing signatures are re-randomized; nonces come from fresh draws; Ready::start reveals the old nonce only; lock releases the old pair only",
             "NOT DECIDABLE by any contract (assumed): that two values are DIFFERENT across messages (true only with overwhelming probability over the draws, false for a constant RNG), and zero-knowledge itself",
         ],
